@@ -46,6 +46,7 @@ type Clause struct {
 
 type SplitSpec struct {
 	Var    string
+	Expr   ast.Expr
 	Lo, Hi int
 }
 
@@ -62,6 +63,7 @@ type Contract struct {
 	Loops    map[int]*LoopSpec
 	Modifies []string
 	Trusted  bool
+	Tier     string   // "" (always) or "thorough" (too slow for the quick tier)
 	Other    []string // verbatim clauses for other tools
 	Line     int
 }
@@ -134,12 +136,17 @@ func parseContractFile(path string) (*ContractFile, error) {
 			}
 		case "split":
 			f := strings.Fields(rest)
-			if len(f) != 3 {
-				return nil, fmt.Errorf("%s:%d: split VAR LO HI", path, lineNo)
+			if len(f) < 3 {
+				return nil, fmt.Errorf("%s:%d: split EXPR LO HI", path, lineNo)
 			}
-			lo, _ := strconv.Atoi(f[1])
-			hi, _ := strconv.Atoi(f[2])
-			cur.Splits = append(cur.Splits, SplitSpec{f[0], lo, hi})
+			lo, _ := strconv.Atoi(f[len(f)-2])
+			hi, _ := strconv.Atoi(f[len(f)-1])
+			ex := strings.Join(f[:len(f)-2], " ")
+			pe, err := parseCExpr(ex)
+			if err != nil {
+				return nil, fmt.Errorf("%s:%d: %v in %q", path, lineNo, err, ex)
+			}
+			cur.Splits = append(cur.Splits, SplitSpec{ex, pe, lo, hi})
 		case "loop":
 			m := reLoop.FindStringSubmatch(body)
 			if m == nil {
@@ -178,6 +185,8 @@ func parseContractFile(path string) (*ContractFile, error) {
 			}
 		case "trusted":
 			cur.Trusted = true
+		case "tier":
+			cur.Tier = strings.TrimSpace(rest)
 		default:
 			cur.Other = append(cur.Other, body)
 		}
@@ -275,7 +284,7 @@ func parseCExpr(s string) (ast.Expr, error) {
 func rewriteCExpr(s string) (string, error) {
 	s = strings.TrimSpace(s)
 	// quantifier at the head
-	for _, q := range []string{"forall", "exists"} {
+	for _, q := range []string{"forall", "exists", "each"} {
 		if strings.HasPrefix(s, q+" ") {
 			rest := strings.TrimSpace(s[len(q):])
 			colon := topLevelIndex(rest, ":")
@@ -319,7 +328,7 @@ func rewriteCExpr(s string) (string, error) {
 		return fmt.Sprintf("implies_(%s, %s)", a, b), nil
 	}
 	// recurse into parenthesised groups that contain ==> or quantifiers
-	if !strings.Contains(s, "==>") && !strings.Contains(s, "forall ") && !strings.Contains(s, "exists ") {
+	if !strings.Contains(s, "==>") && !strings.Contains(s, "forall ") && !strings.Contains(s, "exists ") && !strings.Contains(s, "each ") {
 		return s, nil
 	}
 	var out strings.Builder
